@@ -5,8 +5,11 @@
 package socketcan
 
 import (
+	"context"
 	"net"
 	"time"
+
+	"golang.org/x/net/ipv4"
 )
 
 // VerifFile is the unexported interface `file` of fileconn.go.
@@ -22,4 +25,14 @@ type VerifFile interface {
 // VerifFileConn builds the connection Dial("can", ...) returns, on the given file.
 func VerifFileConn(f VerifFile, network string, la, ra net.Addr) net.Conn {
 	return &fileConn{f: f, net: network, la: la, ra: ra}
+}
+
+// VerifUDPTxRx builds the connection Dial("udp", ...) returns, on the given packet conns.
+func VerifUDPTxRx(rx, tx *ipv4.PacketConn, group *net.UDPAddr) net.Conn {
+	return &udpTxRx{rx: rx, tx: tx, groupAddr: group}
+}
+
+// VerifDialCtx is dialCtx of dial.go.
+func VerifDialCtx(ctx context.Context, provider func() (net.Conn, error)) (net.Conn, error) {
+	return dialCtx(ctx, provider)
 }
